@@ -53,6 +53,19 @@ def priorityFor (t : CandType) (component : Nat) : Nat :=
 def priorityForTcp (t : CandType) (component : Nat) (tt : TcpType) : Nat :=
   combine (typePrefTcp t) (localPrefTcp tt) component
 
+/-- the priority each constructor stores: `host`, `server_reflexive`, `relay` (both transports use the UDP
+function), `host_tcp` / `tcp` (unknown tcptype strings default to passive), `with_tcp_type` (keeps the priority) -/
+def constructorPriority (name : String) (component : Nat) : Option Nat :=
+  match name with
+  | "host" => some (priorityFor .host component)
+  | "srflx" => some (priorityFor .srflx component)
+  | "relay-udp" | "relay-tcp" => some (priorityFor .relay component)
+  | "host_tcp-passive" | "tcp-passive" | "tcp-unknown-type-defaults-to-passive" => some (priorityForTcp .host component .passive)
+  | "host_tcp-active" | "tcp-active" => some (priorityForTcp .host component .active)
+  | "host_tcp-so" | "tcp-so" => some (priorityForTcp .host component .so)
+  | "srflx-with_tcp_type-passive" | "srflx-with_tcp_type-active" | "srflx-with_tcp_type-so" => some (priorityFor .srflx component)
+  | _ => none
+
 /-- `IceCandidatePair::priority(role)` with `local`/`remote` candidate priorities (`u32` each). -/
 def pairPriority (role : Role) (localPrio remotePrio : Nat) : Nat :=
   let (g, d) := match role with
